@@ -211,6 +211,12 @@ def scEvictLoop (evict : ε → Nat → ε) (c : ScCfg) (maxTime : Nat) :
 
 def enumOps (l : List ScOp) : List (Nat × ScOp) := (List.range l.length).zip l
 
+/-- `ops.last().map(|op| op.time).unwrap_or(ZERO)` of the sorted script -/
+def lastTime (script : List ScOp) : Nat :=
+  match (sortByTime script).getLast? with
+  | some o => o.time
+  | none => 0
+
 /-- a whole scenario: the records in execution order and the final time -/
 def scenario (evict : ε → Nat → ε) (seed : Nat) (c : ScCfg) (script : List ScOp) (e0 : ε) : List (ScRec ρ) × Nat :=
   let ops := enumOps (sortByTime script)
@@ -218,8 +224,7 @@ def scenario (evict : ε → Nat → ε) (seed : Nat) (c : ScCfg) (script : List
   let s :=
     if c.evictMs == 0 then scRun exec c ops s0
     else
-      let maxTime := match (sortByTime script).getLast? with | some o => o.time | none => 0
-      scEvictLoop exec evict c maxTime (script.length + maxTime / c.evictMs + 3) ops c.evictMs s0
+      scEvictLoop exec evict c (lastTime script) (script.length + lastTime script / c.evictMs + 3) ops c.evictMs s0
   (s.recs.reverse, s.now)
 
 end
@@ -302,19 +307,28 @@ structure Impl where
 /-- `HashDSTHarness::check_invariants`: `expected` is the shadow `HashSet<String>`, `pi` lists it in
     the order the two `for field in &self.expected_fields` loops visit it, `fmt` renders a
     difference (`{:?}` of a `Vec` collected from `HashSet::difference`: hash order again) -/
-def hashCheck (fmt : NSet → String) (impl : Impl) (expected pi : NSet) : Except String Unit := do
+def hashCheck (fmt : NSet → String) (impl : Impl) (expected pi : NSet) : Except String Unit :=
   if impl.len != expected.length then
-    throw s!"Length mismatch: actual={impl.len}, expected={expected.length}"
-  if impl.isEmpty != expected.isEmpty then
-    throw s!"is_empty mismatch: is_empty={impl.isEmpty}, expected_empty={expected.isEmpty}"
-  match pi.find? (fun f => !impl.exists_ f) with
-  | some f => throw s!"Expected field 'field:{f}' not found"
-  | none => pure ()
-  if impl.keys != expected then
-    throw s!"Keys mismatch: missing={fmt (expected.filter (!impl.keys.contains ·))}, extra={fmt (impl.keys.filter (!expected.contains ·))}"
-  match pi.find? (fun f => !impl.getSome f) with
-  | some f => throw s!"Field 'field:{f}' exists but get returns None"
-  | none => pure ()
+    .error s!"Length mismatch: actual={impl.len}, expected={expected.length}"
+  else if impl.isEmpty != expected.isEmpty then
+    .error s!"is_empty mismatch: is_empty={impl.isEmpty}, expected_empty={expected.isEmpty}"
+  else match pi.find? (fun f => !impl.exists_ f) with
+    | some f => .error s!"Expected field 'field:{f}' not found"
+    | none =>
+      if impl.keys != expected then
+        .error s!"Keys mismatch: missing={fmt (expected.filter (!impl.keys.contains ·))}, extra={fmt (impl.keys.filter (!expected.contains ·))}"
+      else match pi.find? (fun f => !impl.getSome f) with
+        | some f => .error s!"Field 'field:{f}' exists but get returns None"
+        | none => .ok ()
+
+/-- the verdict of `hashCheck`, as a formula -/
+def hashCheckOk (impl : Impl) (expected pi : NSet) : Bool :=
+  impl.len == expected.length && impl.isEmpty == expected.isEmpty && (pi.find? (fun f => !impl.exists_ f)).isNone &&
+    impl.keys == expected && (pi.find? (fun f => !impl.getSome f)).isNone
+
+def errText {α} : Except String α → Option String
+  | .ok _ => none
+  | .error e => some e
 
 def isOk {α} : Except String α → Bool
   | .ok _ => true
@@ -323,6 +337,23 @@ def isOk {α} : Except String α → Bool
 /-- the data structure that meets its specification (what `SimTyped.hashStep` assumes) -/
 def specImpl (fields : NSet) : Impl :=
   { len := fields.length, isEmpty := fields.isEmpty, exists_ := fields.contains, getSome := fields.contains, keys := fields }
+
+/-! ## a final-state accessor that lists a `HashMap` -/
+
+/-- `SimulatedNode::get_all_deltas()`: the keys of `replicated_keys` in map order `pi`; sorted by
+    key in the repaired code (fixes-sim-s3 e148545; the harness sends which variant /repo has:
+    `cfg::CODE_MN_SORTS_DELTAS`) -/
+def getAllDeltas (sorted : Bool) (pi : List Nat) : List Nat := if sorted then sortNat pi else pi
+
+/-! ## the BUGGIFY statistics a `DSTSimulation` copies into its result
+
+`finalize` stores `buggify::get_stats()` — the thread's counters — in `SimulationResult::buggify_stats`.
+In the code as it is nothing resets them when a simulation is created, so a second run on the same
+thread reports the first run's checks as well; the repaired code (fixes-sim-s3) resets them in
+`with_config`. -/
+
+def finalizeStats (resetsOnCreate : Bool) (prev own : NMap Nat) : NMap Nat :=
+  if resetsOnCreate then own else NMap.merge (· + ·) prev own
 
 /-! ## dispatcher of `RUN` lines -/
 
